@@ -14,21 +14,21 @@ import (
 )
 
 type FSOp struct {
-	Seq     int
-	Tid     int
-	Syscall string
-	Ord     int    // ordinal among the calls of Syscall on thread Tid (what strace's when= counts)
-	Kind    string // open creat append write read getdents mkdir rename unlink rmdir other
-	Path    string // absolute
-	Path2   string
-	Data    []byte
-	Flags   string
-	Fd      int
-	Failed  bool
-	Errno   string
-	InRepo  bool
+	Seq      int
+	Tid      int
+	Syscall  string
+	Ord      int    // ordinal among the calls of Syscall on thread Tid (what strace's when= counts)
+	Kind     string // open creat append write read getdents mkdir rename unlink rmdir other
+	Path     string // absolute
+	Path2    string
+	Data     []byte
+	Flags    string
+	Fd       int
+	Failed   bool
+	Errno    string
+	InRepo   bool
 	Injected bool
-	Raw     string
+	Raw      string
 }
 
 // Modifying reports whether the operation changed the file system (successful ones only).
